@@ -142,21 +142,32 @@ theorem supplied_valid_iff (ds : DS) (nb : Option (List Pair)) (q : Quirks) (t :
     (h : ds.topoIn nb q = .ok t) :
     (t.edgeNode.isSome ↔ ∃ v ed, ds.validEdgeVar? q "edge_node_connectivity" = some v ∧ ds.edgeDim = .ok ed) ∧
     (t.edgeFace.isSome ↔ ∃ v ed, ds.validEdgeVar? q "edge_face_connectivity" = some v ∧ ds.edgeDim = .ok ed) ∧
-    (t.faceFace.isSome ↔ ∃ v fd, ds.validFaceVar? "face_face_connectivity" = some v ∧ ds.faceDim = .ok fd) := by
-  simp only [DS.topoIn, bind, Except.bind] at h
-  split at h
-  · simp at h
-  · split at h
-    · simp at h
-    · simp only [pure, Except.pure, Except.ok.injEq] at h
-      subst h
-      refine ⟨?_, ?_, ?_⟩
-      · simp only
-        split <;> simp_all
-      · simp only
-        split <;> simp_all
-      · simp only
-        split <;> simp_all
+    (t.faceFace.isSome ↔ ∃ v fd, ds.validFaceVar? "face_face_connectivity" = some v ∧ ds.faceDim = .ok fd) ∧
+    (t.faceEdge = none ↔ ∃ b, ds.topoBase nb q = .ok b ∧
+        (ds.faceEdgeValid b = .ok false ∨ (ds.faceEdgeValid b = .ok true ∧
+          ∀ v fd, ds.validFaceVar? "face_edge_connectivity" = some v → ds.faceDim ≠ .ok fd))) := by
+  obtain ⟨b, hb, rfl⟩ := topoIn_eq h
+  obtain ⟨hen, hef⟩ := topoBase_edgeTables hb
+  refine ⟨?_, ?_, ?_, ?_⟩
+  · simp only [hen]
+    split <;> simp_all
+  · simp only [hef]
+    split <;> simp_all
+  · simp only
+    split <;> simp_all
+  · simp only [hb, Except.ok.injEq, exists_eq_left']
+    cases hv : ds.faceEdgeValid b with
+    | error e => simp
+    | ok ok =>
+      cases ok with
+      | false => simp
+      | true =>
+        cases hvar : ds.validFaceVar? "face_edge_connectivity" with
+        | none => simp
+        | some v =>
+          cases hfd : ds.faceDim with
+          | error e => simp
+          | ok fd => simp
 
 /-! ## derived edges -/
 
